@@ -913,6 +913,56 @@ func runPCBody(c qcase, o *rec) {
 	oracle(o, c, desc, mux, frags)
 }
 
+// ---------------------------------------------------------------- hand-over of a queue (oracle-only)
+
+// runHandOver: npre packets are queued for device 2; its queue is handed over to the connection of
+// its host (Listener.clientSet / Proxy.clientSet: the host's connection switched to Channel mode with
+// a tag naming the device); the rest of c.Q is queued afterwards.  What the host's queue then holds
+// must be the queued sequence, each once, in order, and nothing may be stranded behind.
+func runHandOver(proxy bool, npre int, q []gp) {
+	class := "handover-listener"
+	if proxy {
+		class = "handover-proxy"
+	}
+	c := qcase{Own: 1, Reg: []int{1, 2}, Q: q, Class: class, OracleOnly: true}
+	guard(c, class, func(c qcase, o *rec) {
+		desc := map[string]interface{}{"scenario": class, "queued_before_hand_over": npre, "queued_after": len(c.Q) - npre, "device": 2, "host": 1}
+		qd := make([]interface{}, len(c.Q))
+		pk := make([]*com.Packet, len(c.Q))
+		for i := range c.Q {
+			pk[i] = c.Q[i].build()
+			qd[i] = c.Q[i].desc()
+		}
+		desc["queue"] = qd
+		var red, str []*com.Packet
+		if proxy {
+			h := c2.C03NewHost(devID(1), []device.ID{devID(2), devID(3)})
+			red, str = h.C03ProxyHandOver(0, 1, pk[:npre], pk[npre:])
+		} else {
+			w := c2.C03NewWorld([]device.ID{devID(1), devID(2)})
+			red, str = w.C03ListenerHandOver(devID(2), devID(1), pk[:npre], pk[npre:])
+		}
+		o.Count(class, fmt.Sprintf("%d/%d", npre, len(c.Q)-npre), len(c.Q) >= 2)
+		got := make([]string, len(red))
+		for i, n := range red {
+			got[i] = fmt.Sprintf("%d/%d/%d", n.ID, n.Job, cidOf(n.Payload()))
+		}
+		want := make([]string, len(c.Q))
+		for i := range c.Q {
+			want[i] = fmt.Sprintf("%d/%d/%d", c.Q[i].ID, c.Q[i].Job, c.Q[i].cid)
+		}
+		desc["host_queue_holds"] = got
+		desc["stranded"] = len(str)
+		if len(str) > 0 {
+			o.Fail("packets queued before a hand-over stay behind on the device's own queue (later packets overtake them)", "handover-stranded", desc)
+			return
+		}
+		if strings.Join(got, " ") != strings.Join(want, " ") {
+			o.Fail("after a hand-over the host's queue does not hold the queued sequence, each once, in order", "handover-order", desc)
+		}
+	})
+}
+
 // ---------------------------------------------------------------- generators
 
 type gen struct {
@@ -1472,6 +1522,19 @@ func main() {
 				}
 			}
 			hh("host-random", own, prox, q...)
+		}
+	}
+
+	// ---- oracle-only: the queue of a device is handed over to its host's connection
+	for _, proxy := range []bool{false, true} {
+		for npre := 0; npre <= 5; npre++ {
+			for npost := 0; npost <= 2; npost++ {
+				q := make([]gp, npre+npost)
+				for i := range q {
+					q[i] = mk(uint8(10+i), 2, 0, 1+i)
+				}
+				runHandOver(proxy, npre, q)
+			}
 		}
 	}
 
